@@ -106,6 +106,11 @@ def binary_case(draw):
             b = {"x": draw(st.one_of(small, st.sampled_from([1.0, 0.0, -1.0, 1, 0, 2]))), "u": None, "e": None, "dec": False, "plain": True}
         else:
             b = draw(operand(unit_tree=vt, array=isinstance(a["x"], list) and draw(st.booleans())))
+            if cls == "other_unit" and draw(st.integers(0, 3)) == 0:
+                # an operand that is (or contains) an exact zero, in another unit
+                b["x"] = [0.0 if i == 0 else x_ for i, x_ in enumerate(b["x"])] if isinstance(b["x"], list) else 0.0
+                b["e"] = None if b["e"] is None else 0.25
+                op = draw(st.sampled_from(["==", "==", "+", "-"]))
         if cls == "decimal":
             a["dec"] = not isinstance(a["x"], list)
             if a["dec"]:
@@ -124,7 +129,17 @@ def binary_case(draw):
 
 @st.composite
 def unary_case(draw):
-    fn = draw(st.sampled_from(UFUNC1 + ["neg", "pow", "power", "value", "value", "value_T"]))
+    fn = draw(st.sampled_from(UFUNC1 + ["neg", "pow", "power", "value", "value", "value_T", "getitem", "getitem"]))
+    if fn == "getitem":
+        # a slice / element of an array quantity is a new quantity: writing into the numbers of one does not show in the other
+        dim = draw(st.sampled_from(G.DIMS))
+        a = draw(operand(unit_tree=draw(G.expr_of_dim(dim)), allow_dec=False, array=True))
+        a["x"] = (a["x"] + [7.0, 8.0, 9.0])[:max(3, len(a["x"]))]
+        if isinstance(a["e"], float):
+            pass
+        alts = [R.render(draw(G.expr_of_dim(dim))) for _ in range(2)]
+        return {"kind": "unary", "fn": "getitem", "a": a, "arg": draw(st.sampled_from(["1:3", "2:", ":", "0", "::2"])),
+                "follow": draw(follow_ups(alts, alts)), "alts": alts, "poke": draw(st.sampled_from(["result", "operand"]))}
     if fn == "value_T":
         # a query of a temperature (array) in another scale
         a = draw(operand(unit_text=draw(st.sampled_from(["K", "Cel", "degF", "degR"])), allow_dec=False,
@@ -397,6 +412,9 @@ def check_unary(case, v):
             r = A ** (tuple(arg) if isinstance(arg, list) else arg)
         elif fn == "power":
             r = np.power(A, arg if not isinstance(arg, list) else arg[0] / arg[1])
+        elif fn == "getitem":
+            key = int(arg) if ":" not in arg else slice(*[(int(t) if t else None) for t in arg.split(":")])
+            r = A[key]
         elif fn == "value":
             r = A.value(arg)
         else:
@@ -406,6 +424,24 @@ def check_unary(case, v):
     d = diff(sa, A)
     if d:
         return v.fail("operand-changed", f"{text}{' (raised)' if raised else ''} altered its operand: {d}")
+    if fn == "getitem" and not raised and isinstance(r, Quantity):
+        # write into the number array one of them hands out: the other must not see it
+        src, other, names_ = (r, A, ("result", "operand")) if case.get("poke") == "result" else (A, r, ("operand", "result"))
+        before_other = snap(other)
+        try:
+            arr = src.value()
+            if isinstance(arr, np.ndarray) and arr.size:
+                arr[...] = arr * 0 + 12345.0
+        except Exception:
+            pass
+        d2 = diff(before_other, other)
+        if d2:
+            return v.fail("shared-state", f"{text}: after writing into the value array of the {names_[0]}, the {names_[1]} "
+                                          f"changed: {d2}")
+        A = _mk(a_spec)
+        r = A[key]
+        sa = snap(A)
+        v.label("slice_buffers_independent")
     if ref is not None:
         now = ("raised", None) if raised else ("ok", _canon_val(copy.deepcopy(r)))
         if ref[0] != now[0] or (ref[0] == "ok" and not _same(ref[1], now[1])):
